@@ -25,7 +25,8 @@ def setup(register, COMMON_TB):
             "and the EndpointSlice controller guarantee it; outside it only soundness is checked (theorems *_partial)",
             "no Plus API / reload faults are injected (C12 covers reload failures)",
             "Service name and namespace non-empty, Service port non-zero (Resolve panics otherwise; the graph never builds such a BackendRef)",
-            "server strings of distinct endpoints are distinct (NoDup (map plus_server eps) is hypothesis wf-free only through NoDup srv of NGINX's own lists)",
+            "NGINX Plus stores and reports server strings verbatim (no canonicalisation of IPv6 text) and never holds a server "
+            "twice in one upstream (NoDup of NGINX's own lists is an invariant of the modelled API)",
         ],
         timeout={"quick": 900, "thorough": 7200},
     )
